@@ -1,5 +1,6 @@
-(** Proofs about the tree walk of Model/GitWalk.v (C14): go-git's TreeWalker state machine with the caller's [seen]
-    map, against the recursive listing of every path of the tree. *)
+(** Proofs about the tree walk of Model/GitWalk.v (C14), against the recursive listing of every path of the tree:
+    the current RepoWalker.walkTree ([walk_forest], end of this file) and, for the record of the two repaired defects,
+    go-git's TreeWalker state machine with the caller's [seen] map that CollectFiles used before. *)
 From ZV Require Import Lib.Base Model.DirWalk Model.Catfile Model.GitWalk Proofs.DirWalk.
 
 (** ---------- reference listing with a seen set: an entry whose hash is in [seen] is dropped together with
@@ -139,14 +140,14 @@ Proof.
     rewrite IHn by assumption. rewrite IHr by assumption. reflexivity.
 Qed.
 
-(** THE WALK IS COMPLETE, whatever hashes are shared: for every tree (entry names without '/', accepted by go-git's
-    ValidTreePath, at most maxTreeDepth+1 levels), CollectFiles is handed every path of the tree exactly as the recursive
+(** The go-git walker with an empty seen set is complete, whatever hashes are shared, on the trees it accepts: for every tree
+    (entry names without '/', accepted by go-git's ValidTreePath, at most maxTreeDepth+1 levels), CollectFiles was handed every path of the tree exactly as the recursive
     listing gives them — equal hashes at different paths (identical subtrees, identical blobs) make no difference. *)
-Theorem tree_entries_all_paths : forall root,
+Theorem gogit_walker_all_paths : forall root,
   forest_names_ok root -> forest_valid root -> forest_height root <= S max_tree_depth ->
-  tree_entries root = Ok (forest_paths [] root).
+  tree_entries_before_fix root = Ok (forest_paths [] root).
 Proof.
-  intros root Hn Hv Hh. unfold tree_entries, tw_init, walk_fuel.
+  intros root Hn Hv Hh. unfold tree_entries_before_fix, tw_init, walk_fuel.
   rewrite tw_run_pending.
   - cbn [pending]. rewrite app_nil_r. rewrite forest_visits_nil_all by exact Hv. reflexivity.
   - cbn [stack_names_ok]. split; [exact Hn|exact I].
@@ -184,12 +185,65 @@ Proof.
   - cbn [forest_paths]. apply in_or_app. right. exact IH.
 Qed.
 
+(** ---------- the current code: RepoWalker.walkTree *)
+Lemma walk_forest_all_paths : forall f depth base,
+  depth + forest_height f <= S max_tree_depth -> walk_forest depth base f = Ok (forest_paths base f).
+Proof.
+  intro f.
+  apply (gforest_mut
+    (fun n => forall depth base name, depth + S (node_height n) <= S max_tree_depth ->
+       forall r, depth + forest_height r <= S max_tree_depth ->
+       (forall d b, d + forest_height r <= S max_tree_depth -> walk_forest d b r = Ok (forest_paths b r)) ->
+       walk_forest depth base (GCons name n r) = Ok (forest_paths base (GCons name n r)))
+    (fun f => forall depth base, depth + forest_height f <= S max_tree_depth -> walk_forest depth base f = Ok (forest_paths base f))).
+  - intros m h ch IHch depth base name Hh r Hr IHr.
+    cbn [walk_forest forest_paths node_paths]. cbn [node_height] in Hh.
+    rewrite (IHr depth base Hr).
+    destruct m; cbn [obind app]; try reflexivity.
+    assert ((max_tree_depth <? S depth) = false) as E.
+    { apply Nat.ltb_ge. pose proof (forest_height_pos ch). lia. }
+    rewrite E. rewrite IHch by lia. cbn [obind]. reflexivity.
+  - intros depth base _. reflexivity.
+  - intros name n IHn r IHr depth base Hh. cbn [forest_height] in Hh.
+    apply IHn; [lia|lia|]. intros d b Hd. apply IHr. exact Hd.
+Qed.
+
+(** THE WALK IS COMPLETE: for every tree with at most maxTreeDepth+1 = 1025 levels — any entry names, any sharing of hashes
+    (the same tree object at several paths, nested duplicates, identical blobs, all hashes equal) — handleEntry is handed
+    every path of the tree exactly once, a directory before its content, in tree order. *)
+Theorem tree_entries_all_paths : forall root,
+  forest_height root <= S max_tree_depth -> tree_entries root = Ok (forest_paths [] root).
+Proof. intros root H. unfold tree_entries. apply walk_forest_all_paths. lia. Qed.
+
 Theorem tree_walk_visits_every_path : forall root p m h,
-  forest_names_ok root -> forest_valid root -> forest_height root <= S max_tree_depth ->
+  forest_height root <= S max_tree_depth ->
   path_in [] root p m h ->
   exists es, tree_entries root = Ok es /\ In {| ge_path := p; ge_mode := m; ge_id := h |} es.
 Proof.
-  intros root p m h Hn Hv Hh Hp. exists (forest_paths [] root). split.
+  intros root p m h Hh Hp. exists (forest_paths [] root). split.
   - apply tree_entries_all_paths; assumption.
   - apply path_in_forest_paths. exact Hp.
+Qed.
+
+(** a deeper tree is refused with an error (never a partial listing) *)
+Lemma walk_forest_never_partial : forall f depth base es, walk_forest depth base f = Ok es -> es = forest_paths base f.
+Proof.
+  intro f.
+  apply (gforest_mut
+    (fun n => forall depth base name r es,
+       (forall d b es', walk_forest d b r = Ok es' -> es' = forest_paths b r) ->
+       walk_forest depth base (GCons name n r) = Ok es -> es = forest_paths base (GCons name n r))
+    (fun f => forall depth base es, walk_forest depth base f = Ok es -> es = forest_paths base f)).
+  - intros m h ch IHch depth base name r es IHr H.
+    cbn [walk_forest] in H. cbn [forest_paths node_paths].
+    destruct m; cbn [obind] in H;
+      try (destruct (walk_forest depth base r) as [rest| |] eqn:Er; cbn [obind] in H; try discriminate;
+           injection H as H; subst es; rewrite (IHr _ _ _ Er); reflexivity).
+    destruct (max_tree_depth <? S depth); [discriminate|].
+    destruct (walk_forest (S depth) (simple_join base name) ch) as [below| |] eqn:Eb; cbn [obind] in H; try discriminate.
+    destruct (walk_forest depth base r) as [rest| |] eqn:Er; cbn [obind] in H; try discriminate.
+    injection H as H. subst es. rewrite (IHch _ _ _ Eb), (IHr _ _ _ Er). reflexivity.
+  - intros depth base es H. cbn in H. injection H as H. subst es. reflexivity.
+  - intros name n IHn r IHr depth base es H. apply (IHn depth base name r es); [|exact H].
+    intros d b es' H'. apply (IHr d b es' H').
 Qed.
